@@ -25,6 +25,7 @@ type SchedCase struct {
 	// LockMissing: .ergo/lock is removed before the concurrent phase (it is not state; the
 	// manual says it is recreated on demand)
 	LockMissing bool `json:"lock_missing,omitempty"`
+	BigLogMB    int  `json:"big_log_mb,omitempty"`
 }
 
 // genActions draws a controller schedule: every command is started once; a parked
@@ -142,6 +143,7 @@ func genClaimRace(t *rapid.T, w *World, pre *Snapshot, n int) []Op {
 }
 
 type schedSpec struct {
+	bigLogPct  int  // percent of cases whose store holds a multi-megabyte log
 	growthOnly bool // judge only "history only grows" (C12), observed between controller actions
 	genOps     func(t *rapid.T, w *World, pre *Snapshot, n int) []Op
 	prop       string
@@ -224,6 +226,17 @@ func runSchedTest(t *testing.T, sp schedSpec) {
 				}
 				pre = out.Post
 			}
+			if sc.BigLogMB > 0 {
+				Run(Cmd{Args: []string{"--json", "new", "task", "--body-stdin", "--title", "big body"}, Mode: StdinPipe, Stdin: bigBody(sc.BigLogMB << 20), Dir: w.Root})
+				if pre2, err := TakeSnapshot(w.Root); err == nil {
+					for id := range pre2.Items {
+						if !w.Seen[id] {
+							w.AddID(id, 900)
+						}
+					}
+					pre = pre2
+				}
+			}
 			if sc.LockMissing {
 				os.Remove(filepath.Join(w.Root, ".ergo", "lock"))
 			}
@@ -270,6 +283,7 @@ func runSchedTest(t *testing.T, sp schedSpec) {
 		if err != nil {
 			rt.Fatalf("fresh store unreadable")
 		}
+		bigMB := 0
 		nsetup := between(rt, 3, 10, "setup.n")
 		for i := 0; i < nsetup; i++ {
 			op := genOp(rt, w, pre, sp.setup)
@@ -281,6 +295,24 @@ func runSchedTest(t *testing.T, sp schedSpec) {
 			}
 			setup = append(setup, op)
 			pre = out.Post
+		}
+		if sp.bigLogPct > 0 && pct(rt, sp.bigLogPct, "big.log") {
+			// a multi-megabyte log: replaying it makes the garbage collector run inside the
+			// lock section (anything that only a finalizer keeps alive shows up here)
+			size := between(rt, 4, 8, "big.mb") << 20
+			r := Run(Cmd{Args: []string{"--json", "new", "task", "--body-stdin", "--title", "big body"}, Mode: StdinPipe, Stdin: bigBody(size), Dir: w.Root})
+			if r.OK() {
+				bigMB = size >> 20
+				if pre2, err := TakeSnapshot(w.Root); err == nil {
+					for id := range pre2.Items {
+						if !w.Seen[id] {
+							w.AddID(id, 900)
+						}
+					}
+					pre = pre2
+				}
+				stats.Label("log_of_several_megabytes")
+			}
 		}
 		lockMissing := pct(rt, 20, "lock.missing")
 		if lockMissing {
@@ -332,7 +364,7 @@ func runSchedTest(t *testing.T, sp schedSpec) {
 			}
 		}
 		if len(viol) > 0 {
-			WriteReplay(replayPath, SchedCase{Property: sp.prop, Engine: "SCHED", Test: sp.test, Setup: setup, Cmds: cmds, Actions: actions, Violations: viol, LockMissing: lockMissing})
+			WriteReplay(replayPath, SchedCase{Property: sp.prop, Engine: "SCHED", Test: sp.test, Setup: setup, Cmds: cmds, Actions: actions, Violations: viol, LockMissing: lockMissing, BigLogMB: bigMB})
 			rt.Fatalf("%s violated: %v", sp.prop, viol)
 		}
 		stats.Eval()
@@ -374,14 +406,14 @@ func runSchedTest(t *testing.T, sp schedSpec) {
 	})
 }
 
-var claimSetup = Profile{Name: "claim-setup", Weights: map[string]int{"new_task": 40, "new_epic": 8, "set": 18, "sequence": 14, "plan": 5, "prune_yes": 2, "claim": 3},
-	BadRef: 0, Spoil: 0, Results: 0, EpicPct: 45, StatePool: []string{"todo", "done", "done", "blocked", "canceled"}, StatePct: 40, ClaimPct: -1}
+var claimSetup = Profile{Name: "claim-setup", Weights: map[string]int{"new_task": 38, "new_epic": 12, "set": 18, "sequence": 18, "plan": 4, "prune_yes": 2, "claim": 3},
+	BadRef: 0, Spoil: 0, Results: 0, EpicPct: 55, SeqEpicPct: 45, StatePool: []string{"todo", "done", "done", "blocked", "canceled"}, StatePct: 40, ClaimPct: -1}
 
 func TestC01(t *testing.T) {
 	runSchedTest(t, schedSpec{
 		prop: "C01", test: "TestC01",
 		rule:   "a generated store (short random history) and 2-4 concurrent commands - mostly `claim` (with / without --epic) plus disturbers that reopen, finish, move or create tasks (`set`, `new task`, `prune --yes`) -, each optionally parked by the controller right after a drawn system call on the store's files (strace SIGSTOP injection) and resumed at a drawn later moment, or all free-running; oracle: some serial order consistent with real time in which every successful claim returns the model's oldest ready task at that position and the final state matches, lock-busy claims contribute nothing, no id is handed out twice; non-trivial = executions overlap and at least one park landed (or free-running); distinct = (commands, park points, controller schedule)",
-		genOps: genClaimRace, minN: 2, maxN: 4, setup: claimSetup,
+		genOps: genClaimRace, minN: 2, maxN: 4, setup: claimSetup, bigLogPct: 8,
 		extra: func(pre, final *Snapshot, cmds []ConcCmd) []string {
 			var out []string
 			seen := map[string]int{}
@@ -417,7 +449,7 @@ func TestC02(t *testing.T) {
 	runSchedTest(t, schedSpec{
 		prop: "C02", test: "TestC02",
 		rule:  "a generated store and 2-4 concurrent commands drawn from {new task, new epic, set, claim, claim <id>, sequence, sequence rm, plan, prune --yes, compact, init}, each optionally parked right after a drawn system call on the store's files and resumed at a drawn later moment (or free-running); oracle: linearizability against the reference model (replies and final state explained by some serial order of the acknowledged commands consistent with real time; failed commands, lock busy included, contribute nothing), the log is whole JSON lines, and no command fails to return while another is parked; non-trivial = executions overlap and at least one park landed (or free-running); distinct = (commands, park points, controller schedule)",
-		kinds: mixedKinds, minN: 2, maxN: 4, setup: setupProfile,
+		kinds: mixedKinds, minN: 2, maxN: 4, setup: setupProfile, bigLogPct: 8,
 	})
 }
 
@@ -526,7 +558,7 @@ func genPruneRace(t *rapid.T, w *World, pre *Snapshot, n int) []Op {
 func TestC09Conc(t *testing.T) {
 	runSchedTest(t, schedSpec{
 		prop: "C09", test: "TestC09Conc",
-		rule: "a generated store with finished and open tasks in and outside epics, one `prune --yes` and 1-2 concurrent writers that change what is finished (reopen a done task, finish an open one, add a child to an epic, move a task into an epic), parked / resumed by the controller or free-running; oracle: linearizability against the reference model - the reported pruned_ids are exactly the finished work at prune's position in the serial order, nothing unfinished and no epic with a child is removed; non-trivial = executions overlap and at least one park landed (or free-running)",
+		rule:   "a generated store with finished and open tasks in and outside epics, one `prune --yes` and 1-2 concurrent writers that change what is finished (reopen a done task, finish an open one, add a child to an epic, move a task into an epic), parked / resumed by the controller or free-running; oracle: linearizability against the reference model - the reported pruned_ids are exactly the finished work at prune's position in the serial order, nothing unfinished and no epic with a child is removed; non-trivial = executions overlap and at least one park landed (or free-running)",
 		genOps: genPruneRace, minN: 2, maxN: 3,
 		setup: Profile{Name: "prune-setup", Weights: map[string]int{"new_task": 44, "new_epic": 12, "set": 30, "sequence": 8, "plan": 3}, EpicPct: 55, StatePool: []string{"done", "done", "canceled", "todo", "blocked"}, StatePct: 60, ClaimPct: -1},
 	})
